@@ -1,4 +1,6 @@
 """property id -> harness modules whose shards decide it"""
 PROPS = {
     'C02': {'modules': ['harness.h_c02']},
+    'C18': {'modules': ['harness.h_c18']},
+    'C19': {'modules': ['harness.h_c19']},
 }
